@@ -144,6 +144,16 @@ fn d_check(prev: &Dump, st: &Stmt, next: &Dump) -> Vec<DFail> {
         }
     }
     if !ok {
+        // a failed operation leaves every name and every object as it was
+        // (objects reachable from the names only: a dump also lists what the previous result reached)
+        let state = |d: &Dump| {
+            let mut r = BTreeSet::new();
+            d.vars.iter().chain(d.caps.iter()).for_each(|v| d.reach_into(v, &mut r));
+            d.objs.iter().filter(|(k, _)| r.contains(k)).map(|(k, o)| (*k, o.clone())).collect::<Vec<_>>()
+        };
+        if prev.vars != next.vars || prev.caps != next.caps || state(prev) != state(next) {
+            fail("error_leaves_state", "the statement raised an error but the heap changed".into(), None);
+        }
         return out;
     }
     match st {
